@@ -112,7 +112,7 @@ Hypothesis Npos : 0 < N.
 Hypothesis dpos : forall r, (r < n)%nat -> (0 < d r)%nat.
 Hypothesis E_in : forall e, In e E -> (fst e < n)%nat /\ (snd e < n)%nat.
 (* broadcasting a child table into the parent is the adjoint of marginalising the parent onto the child *)
-Hypothesis adjoint : forall e m v, dotf (d (fst e)) (lift e m) v = dotf (d (snd e)) m (proj e v).
+Hypothesis adjoint : forall e, In e E -> forall m v, dotf (d (fst e)) (lift e m) v = dotf (d (snd e)) m (proj e v).
 
 Fixpoint phiE (l : list (nat * nat)) (r : nat) : nat -> R :=
   match l with
@@ -152,7 +152,7 @@ Proof. intros C. rewrite edge_terms_total by exact E_in.
   assert (G : forall l, (forall e, In e l -> In e E) ->
     fold_right (fun e acc => dotf (d (fst e)) (lift e (msg e)) (nu (fst e)) - dotf (d (snd e)) (msg e) (nu (snd e)) + acc) 0 l = 0).
   { induction l as [|e l IH]; intros H; simpl. reflexivity. rewrite IH by (intros; apply H; now right).
-    rewrite adjoint. unfold dotf. rewrite (sumf_ext _ _ (fun i => msg e i * nu (snd e) i)). lra.
+    rewrite (adjoint e (H e (or_introl eq_refl))). unfold dotf. rewrite (sumf_ext _ _ (fun i => msg e i * nu (snd e) i)). lra.
     intros i Hi. rewrite (C e (H e (or_introl eq_refl)) i Hi). reflexivity. }
   apply G. auto. Qed.
 
